@@ -380,6 +380,24 @@ func (e *env) doEncB(which string, caps int, cells []vaxis.Cell) (res string) {
 			res = hexOrDash(vaxis.EncodeCells(cells))
 		case "ss":
 			res = hexOrDash((&vaxis.StyledString{Cells: cells}).Encode())
+		case "render":
+			// the exact bytes of the SGR sequences and the text of one rendered frame, in order (cursor movement, modes and
+			// other sequences removed): what Model.SgrBytes.renderFromB writes
+			vx, fc, err := e.session(caps)
+			if err != nil {
+				res = "error:" + err.Error()
+				return
+			}
+			win := vx.Window()
+			for i, c := range cells {
+				c.Width = 1
+				win.SetCell(i, 0, c)
+			}
+			vx.Render()
+			res = hexOrDash(sgrAndText(string(fc.Take())))
+			win.Clear()
+			vx.Render()
+			fc.Take()
 		default:
 			res = "bad-op"
 		}
@@ -388,6 +406,45 @@ func (e *env) doEncB(which string, caps int, cells []vaxis.Cell) (res string) {
 		return "panic"
 	}
 	return res
+}
+
+// sgrAndText keeps, byte for byte, the SGR sequences (CSI with digits, ';' and ':' only, final 'm') and the text of s; every other
+// escape sequence, control string and C0 control is dropped.
+func sgrAndText(s string) string {
+	var sb strings.Builder
+	for i := 0; i < len(s); {
+		switch {
+		case s[i] == 0x1b && i+1 < len(s) && s[i+1] == '[':
+			j := i + 2
+			for j < len(s) && (s[j] < 0x40 || s[j] > 0x7e) {
+				j++
+			}
+			if j >= len(s) {
+				return sb.String()
+			}
+			if s[j] == 'm' && strings.Trim(s[i+2:j], "0123456789;:") == "" {
+				sb.WriteString(s[i : j+1])
+			}
+			i = j + 1
+		case s[i] == 0x1b && i+1 < len(s) && (s[i+1] == ']' || s[i+1] == 'P' || s[i+1] == '_' || s[i+1] == '^' || s[i+1] == 'X'):
+			j := i + 2
+			for j < len(s) && s[j] != 0x07 && !(s[j] == 0x1b && j+1 < len(s) && s[j+1] == '\\') {
+				j++
+			}
+			if j < len(s) && s[j] == 0x1b {
+				j++
+			}
+			i = j + 1
+		case s[i] == 0x1b:
+			i += 2
+		case s[i] < 0x20:
+			i++
+		default:
+			sb.WriteByte(s[i])
+			i++
+		}
+	}
+	return sb.String()
 }
 
 func hexOrDash(s string) string {
@@ -866,6 +923,11 @@ func (e *env) genRt(rng *gen.Rng) {
 			}
 			e.emit(strings.TrimSpace(fmt.Sprintf("encb %s %d %s", which, caps, strings.Join(cs, " "))))
 			r.Count("encb:" + which)
+			if len(cs) > 0 && (r.Thorough || i%6 == 0) { // the SGR bytes and text of a rendered frame of the same cells, every capability setting
+				rc := rng.Intn(4) | (caps & 4)
+				e.emit(fmt.Sprintf("encb render %d %s", rc, strings.Join(cs, " ")))
+				r.Count("encb:render")
+			}
 			if cells, ok := parseCells(cs); ok {
 				str := ""
 				e.setLegacy(caps&4 != 0)
